@@ -166,6 +166,8 @@ def jenc(o):
         return {"__dict__": [[jenc(k), jenc(v)] for k, v in o.items()]}
     if isinstance(o, bytes):
         return {"__bytes__": list(o)}
+    if isinstance(o, frozenset):
+        return {"__fset__": sorted(jenc(x) for x in o)}
     return o
 
 
@@ -179,5 +181,7 @@ def jdec(o):
             return {jdec(k): jdec(v) for k, v in o["__dict__"]}
         if set(o) == {"__bytes__"}:
             return bytes(o["__bytes__"])
+        if set(o) == {"__fset__"}:
+            return frozenset(jdec(x) for x in o["__fset__"])
         return {k: jdec(v) for k, v in o.items()}
     return o
